@@ -29,8 +29,15 @@ var stdCodecs = []stdCodec{
 	{"png", 'I', "decoder", []string{"pjw-thumbnail.png", "hippopotamus.regular.png", "animated-red-blue.apng", "red-blue-gradient.gamma2dot2.png", "red-blue-gradient.dcip3d65-no-chrm-no-gama.png", "hippopotamus.regular.truncated.png"}},
 	{"bmp", 'I', "decoder", []string{"pjw-thumbnail.bmp", "hippopotamus.bmp"}},
 	{"wbmp", 'I', "decoder", []string{"muybridge-frame-000.wbmp"}},
-	{"nie", 'I', "decoder", []string{"crude-flag.nie"}},
-	{"jpeg", 'I', "decoder", []string{"bricks-gray.jpeg"}},
+	{"nie", 'I', "decoder", []string{"crude-flag.nie", "animated-red-blue.nia", "crude-flag.nia"}},
+	{"jpeg", 'I', "decoder", []string{"bricks-gray.jpeg", "pjw-thumbnail.jpeg"}},
+	{"qoi", 'I', "decoder", []string{"bricks-color.qoi"}},
+	{"targa", 'I', "decoder", []string{"bricks-gray.tga", "bricks-nodither.tga"}},
+	{"netpbm", 'I', "decoder", []string{"hippopotamus.pgm", "hippopotamus.ppm"}},
+	{"webp", 'I', "decoder", []string{"pjw-thumbnail.lossless.webp", "pjw-thumbnail.lossy.webp"}},
+	{"etc2", 'I', "decoder", []string{"mona-lisa.21x32.etc2.pkm", "bricks-color.etc2.pkm"}},
+	{"handsum", 'I', "decoder", []string{"mona-lisa.21x32.handsum"}},
+	{"thumbhash", 'I', "decoder", []string{"mona-lisa.21x32.th"}},
 	{"deflate", 'T', "decoder", []string{"romeo.txt.deflate", "romeo.txt.fixed-huff.deflate"}},
 	{"zlib", 'T', "decoder", []string{"romeo.txt.zlib"}},
 	{"gzip", 'T', "decoder", []string{"romeo.txt.gz"}},
@@ -468,13 +475,21 @@ func stdHistory(rng *hlib.Rand, d *cdrv.Driver, c *stdCodec, ms []*methodInfo, s
 		case strings.HasPrefix(status, "$"):
 			cls = "susp"
 		}
-		if c.name == "gif" || c.name == "png" {
-			impl := fmt.Sprintf("allowed %d", cs)
-			if cls == "bcs" && cs == csBefore && !resumed {
-				impl = "rejected"
+		{
+			// the automaton of Model/CallSeq.lean (op `cseq`)
+			class := csClass(c.name, "")
+			if c.name == "webp" {
+				// a lossy WebP is handed to the embedded vp8 decoder, whose own call_sequence moves while
+				// the outer one stays at 0x20: only the document's rules below apply
+				class = "delegating"
+			} else {
+				impl := fmt.Sprintf("allowed %d", cs)
+				if cls == "bcs" && cs == csBefore && !resumed {
+					impl = "rejected"
+				}
+				h.op(fmt.Sprintf("cseq %s %d %s %d %s %d", class, csBefore, meth, b2i(resumed), cls, cs), impl)
 			}
-			h.op(fmt.Sprintf("cseq %s %d %s %d %s %d", c.name, csBefore, meth, b2i(resumed), cls, cs), impl)
-			h.count(fmt.Sprintf("cseq:%s:%s:%02x->%s", c.name, meth, csBefore, cls))
+			h.count(fmt.Sprintf("cseq:%s:%s:%02x->%s", class, meth, csBefore, cls))
 			// the document's rules, from the history of answers alone
 			if !resumed && !otherSuspended {
 				out := false
@@ -489,7 +504,12 @@ func stdHistory(rng *hlib.Rand, d *cdrv.Driver, c *stdCodec, ms []*methodInfo, s
 					out = metaPending
 				}
 				if out && cls != "bcs" {
-					h.fails = append(h.fails, hlib.Failure{Key: "callseq:" + c.name + ":" + meth + "-out-of-order-not-rejected", Desc: fmt.Sprintf("item %d: %s is out of order here (config decoded: %v, metadata pending: %v) but returned %s", i, x.text, cfgDone, metaPending, status), Replay: replay})
+					key := "callseq:" + c.name + ":" + meth + "-out-of-order-not-rejected"
+					if meth == "tmm" && status == "#base:_no_more_information" && c.name != "gif" && c.name != "png" {
+						// rejected (an error, the object is disabled), but not with the status the document names
+						key = "callseq:tmm-without-metadata:no-more-information"
+					}
+					h.fails = append(h.fails, hlib.Failure{Key: key, Desc: fmt.Sprintf("%s item %d: %s is out of order here (config decoded: %v, metadata pending: %v) but returned %s", c.name, i, x.text, cfgDone, metaPending, status), Replay: replay})
 				}
 				if !out && cls == "bcs" {
 					h.fails = append(h.fails, hlib.Failure{Key: "callseq:" + c.name + ":" + meth + "-in-order-rejected", Desc: fmt.Sprintf("item %d: %s is in order here (config decoded: %v, metadata pending: %v) but returned bad call sequence", i, x.text, cfgDone, metaPending), Replay: replay})
